@@ -391,8 +391,15 @@ func (gp *GenginePool) UpdatePooledRulesIncremental(ruleStr string) error {
 func (gp *GenginePool) ClearPoolRules() {
 	gp.updateLock.Lock()
 	defer gp.updateLock.Unlock()
-	gp.ruleBuilder = nil
-	gp.publish(base.NewKnowledgeContext(), true)
+	//keep an empty master builder (not nil): incremental updates, removals and plugin loading after a clear go through it
+	dataContext := context.NewDataContext()
+	if gp.apis != nil {
+		for k, v := range gp.apis {
+			dataContext.Add(k, v)
+		}
+	}
+	gp.ruleBuilder = builder.NewRuleBuilder(dataContext)
+	gp.publish(gp.ruleBuilder.Kc, true)
 }
 
 //remove rules
